@@ -1,9 +1,48 @@
+import CoupeModel.Model.Vn
 import CoupeModel.Driver.Util
 
 namespace Coupe.Driver.C14
-open Coupe.Driver
+open Coupe.Vn Coupe.Driver
 
-/-- (stub; not built yet) -/
-def handle (_toks : List String) : String := "bad-op"
+/-- Weight type token → model configuration. -/
+def cfgOf (ty : String) : Option Cfg :=
+  match ty with
+  | "i64" => some {}
+  | "u64" => some { unsigned := true }
+  | "f64" => some { halfExact := true }
+  | _ => none
+
+def render : Outcome → String
+  | .ok ids c => "ok " ++ toString c ++ " | " ++ joinNats ids
+  | .negativeValues => "negative"
+  | .lenMismatch => "lenmismatch"
+  | .abort => "panic"
+
+/-- op: `best|first <i64|u64|f64> <threads> <n> <w_0> … <w_{n-1}> <m> <id_0> … <id_{m-1}>`
+(weights are integers in every type; `threads` is the rayon pool size, which the model –
+like the code's result – does not depend on). -/
+def handle (toks : List String) : String :=
+  match toks with
+  | algo :: ty :: th :: n :: rest =>
+    match (do
+      let cfg ← cfgOf ty
+      let _ ← parseNat? th
+      let n ← parseNat? n
+      let (ws, rest) ← takeParsed parseInt? n rest
+      match rest with
+      | m :: rest =>
+        let m ← parseNat? m
+        let (ids, rest) ← takeParsed parseNat? m rest
+        if rest.isEmpty then some (cfg, ws, ids) else none
+      | [] => none) with
+    | none => "bad-op"
+    | some (cfg, ws, ids) =>
+      if cfg.unsigned && ws.any (fun w => decide (w < 0)) then "bad-op"
+      else
+        match algo with
+        | "best" => render (Coupe.VnBest.run cfg ids ws)
+        | "first" => render (Coupe.VnFirst.run cfg ids ws)
+        | _ => "bad-op"
+  | _ => "bad-op"
 
 end Coupe.Driver.C14
